@@ -4,7 +4,8 @@
 From AY Require Import Model.Merge Model.Loader Proofs.NodeInd Proofs.FlagsLemmas Proofs.FactsOk Spec.UpdateP
   Proofs.MergePlain Proofs.LoaderLemmas Proofs.Laws Proofs.MergeNotNew Proofs.MergeGen Proofs.MergePrio Proofs.PrioPath.
 
-Definition tz (t : tagkw) : Prop := t_del t = None /\ t_new t = None.
+Definition tz (t : tagkw) : Prop := t_del t = None /\ t_new t <> Some false.
+Definition kw_new_ok (kw : ckw) : Prop := (if ck_any kw then ck_inew kw else None) <> Some false.
 
 Inductive yz : ynode -> Prop :=
 | yz_s t v : tz t -> yz (YS t v)
@@ -22,10 +23,10 @@ Lemma yprio_YM inh t l :
   yprio inh (YM t l) = PPD (onone (inh_prio inh t) Facts.default_priority) (map (fun kx => (fst kx, yprio (inh_prio inh t) (snd kx))) l).
 Proof. cbn [yprio]. f_equal. induction l as [|[k x] r IH]; [reflexivity|]. cbn [map fst snd]. now f_equal. Qed.
 
-Lemma own_flags_NZ c inh kw t : tz t -> kw_new_none kw -> NZ (own_flags c inh kw t).
+Lemma own_flags_NZ c inh kw t : tz t -> kw_new_ok kw -> NZ (own_flags c inh kw t).
 Proof. intros (h2 & h3) Hk. unfold own_flags, NZ, OZ. cbn. repeat split; auto. Qed.
 
-Lemma load_newz : forall y c inh kw, yz y -> kw_new_none kw -> kw_idel_none kw ->
+Lemma load_newz : forall y c inh kw, yz y -> kw_new_ok kw -> kw_idel_none kw ->
   NewZ (load c inh kw y) /\ perase (load c inh kw y) = yprio inh y.
 Proof.
   induction y as [t v|t l IH|t l IH] using ynode_ind'; intros c inh kw Hy Hk Hi.
@@ -34,8 +35,9 @@ Proof.
     pose proof (own_flags_NZ c inh kw t Ht Hk) as HN.
     destruct Ht as (h2 & h3).
     set (f := own_flags c inh kw t) in *.
-    assert (Hk' : kw_new_none (child_kwargs (Comp CDict f SNone []))).
-    { unfold kw_new_none. cbn [child_kwargs nflags ck_any ck_inew]. unfold f at 1. cbn [own_flags f_new]. rewrite h3. exact (proj2 HN). }
+    assert (Hk' : kw_new_ok (child_kwargs (Comp CDict f SNone []))).
+    { unfold kw_new_ok. cbn [child_kwargs nflags ck_any ck_inew]. unfold f at 1. cbn [own_flags f_new].
+      destruct (t_new t) as [[|]|]; [discriminate|congruence|exact (proj2 (proj2 HN))]. }
     assert (Hi' : kw_idel_none (child_kwargs (Comp CDict f SNone []))).
     { unfold kw_idel_none. cbn [child_kwargs nflags ck_any ck_idel default_delete]. unfold f at 1. cbn [own_flags f_del]. rewrite h2, dict_default_delete. exact Hi. }
     assert (G : Forall (fun kc => NewZ (snd kc)) (map (fun kx => (fst kx, load c (inh_prio inh t) (child_kwargs (Comp CDict f SNone [])) (snd kx))) l)
@@ -61,7 +63,7 @@ Proof.
 Qed.
 
 Lemma load_doc_newz c y : yz y -> NewZ (load_doc c y) /\ perase (load_doc c y) = yprio None y.
-Proof. intro H. apply load_newz; [exact H|reflexivity|reflexivity]. Qed.
+Proof. intro H. apply load_newz; [exact H|discriminate|reflexivity]. Qed.
 
 (* any number of documents: Builder.flatten builds the left fold of upd_p over their priority images *)
 Theorem flatten_prio_docs e c y0 ys : Forall yz (y0 :: ys) -> forallb is_YM (y0 :: ys) = true ->
